@@ -294,6 +294,48 @@ func runC15(c *core.Ctx) {
 		})
 		c.Check(okOnce, "R4", "response-writer/header-once", p.Pos(wh.Pos()), "the header is written only while wroteHeader is false", "the status line / headers can be written more than once")
 	}
+	// the finaliser forces the header before it looks at the chunk writer: the chunked encoder only exists once
+	// the header was written, so a finaliser that tests it first never terminates an empty chunked response
+	if cl := p.DeclMethod(rw, "Close"); cl != nil && wroteF != nil && chunkF != nil {
+		wh := p.DeclMethod(rw, "WriteHeader")
+		c.Instance("R4")
+		headerQ := &core.Query{P: p, MaxDepth: 3, Pred: func(x ssa.Instruction) bool {
+			cc := core.CallCommon(x)
+			return cc != nil && wh != nil && cc.StaticCallee() == wh
+		}}
+		var early func(fn *ssa.Function, depth int) (ssa.Instruction, []*ssa.BasicBlock)
+		early = func(fn *ssa.Function, depth int) (ssa.Instruction, []*ssa.BasicBlock) {
+			wroteTrue := map[edgeKey]bool{}
+			for _, ifi := range core.Ifs(fn) {
+				cd := core.CondOf(ifi)
+				if cd.Op == token.ILLEGAL {
+					if f, _ := core.FieldOf(cd.X); f == wroteF {
+						wroteTrue[edgeKey{ifi.Block(), cd.True}] = true
+					}
+				}
+			}
+			return core.Search(nil, fn.Blocks[0], func(x ssa.Instruction) core.Action {
+				if headerQ.InstrMust(x, nil) {
+					return core.Barrier
+				}
+				if ld, ok := x.(*ssa.UnOp); ok && ld.Op == token.MUL {
+					if f, _ := core.FieldOf(ld); f == chunkF {
+						return core.Target
+					}
+				}
+				if call, ok := x.(*ssa.Call); ok && !call.Call.IsInvoke() && depth < 3 {
+					if g := call.Call.StaticCallee(); g != nil && g != wh && p.InRepo(g) && g.Blocks != nil && g.Signature.Recv() != nil {
+						if t, _ := early(g, depth+1); t != nil {
+							return core.Target
+						}
+					}
+				}
+				return core.Continue
+			}, func(a, b *ssa.BasicBlock) bool { return !wroteTrue[edgeKey{a, b}] })
+		}
+		t, path := early(cl, 0)
+		c.Check(t == nil, "R4", "response-writer/header-before-finish", p.Pos(cl.Pos()), "Close forces the header before it consults the chunk writer", "Close looks at the chunk writer before the header was forced: for a handler that wrote nothing the chunked encoder does not exist yet and the terminating chunk is never sent (the next response on the connection is parsed as chunk data)", p.PathString(path, t)...)
+	}
 	if wr := p.DeclMethod(rw, "Write"); wr != nil && wroteF != nil {
 		c.Instance("R4")
 		// every path to a body write passes WriteHeader or the wroteHeader==true edge
